@@ -6,7 +6,7 @@ ids="$@"; [ -z "$ids" ] && ids=$(ls seeded)
 for id in $ids; do
   prop=${id:0:3}
   if [ -n "$(git -C /repo status --porcelain --untracked-files=no)" ]; then echo "/repo is not clean"; exit 9; fi
-  if ! git -C /repo apply seeded/$id/patch.diff 2>/dev/null && ! git -C /repo apply --3way seeded/$id/patch.diff 2>/dev/null; then
+  if ! git -C /repo apply /verif/seeded/$id/patch.diff 2>/dev/null && ! git -C /repo apply --3way /verif/seeded/$id/patch.diff 2>/dev/null; then
     echo "$id: patch does not apply"; git -C /repo checkout -- . ; git -C /repo reset -q; continue; fi
   git -C /repo reset -q   # --3way stages; keep the index clean
   t0=$(date +%s)
